@@ -8,13 +8,13 @@ table = subprocess.check_output([sys.executable, os.path.join(HERE, 'tools', 'se
 TEXT = '''## 9. Seeded changes: which checks catch which
 --------------------------------------------------------------------------------
 
-Three rounds of seeding were run with fresh sub-agents.  Each agent got only the text of one
+Four rounds of seeding were run with fresh sub-agents (the fourth after the coverage audit of every harness).  Each agent got only the text of one
 property and its own scratch git worktree of /repo (nothing from /verif), and had to produce a
 change that breaks the property, keeps the package importable and leaves the repository's test
 results exactly as they were (same 542 passing / 48 failing tests), plus a demonstration program.
 From the second round on each agent was also told the earlier ideas for its property and had to use
-a different mechanism, location and trigger; in the third round it was asked to attack a clause of
-the statement or an element of the quantifier that the earlier changes did not touch.  Every
+a different mechanism, location and trigger; in the third and fourth rounds it was asked to attack a
+clause of the statement or an element of the quantifier that the earlier changes did not touch.  Every
 change was confirmed by `tools/try_seed.sh` (demo passes on /repo, fails on the patched scratch
 copy; test suite re-run on the patched copy; then `VERIF_REPO=<patched copy> ./check <property>
 quick`).  Confirmed changes are kept under `seeded/<dir>/` (patch.diff, demo.py, meta.json with
@@ -48,6 +48,31 @@ The misses and what was changed (every one is caught now; no check was loosened 
 * C19 r1 (periodic flush after 1 MiB): the quick tier now has a multi-megabyte collection with sampled
   crash points.  C19 r3 (`gambit signatures create` writes a header-only file before the long
   calculation): the real CLI writer is now killed before, during and after the calculation.
+
+* Round 4 (after the audit): 15 of 20 caught at once.  C04 (identifier values read through a second,
+  differently ordered query and zipped with the genomes: needs annotation rows in another physical order
+  than the genome rows): ROUND4_C04.  C08 (one-shot zlib.decompress instead of GzipFile: multi-member
+  gzip inputs lose everything after the first member; the same idea was caught at once by C06, whose
+  audit had added gzip flavours): ROUND4_C08.  C12 (buffered per-signature writer that drops the pending
+  buffer before a signature of >= 2^14 values, list-type containers only): ROUND4_C12.  C18 (a `PRAGMA
+  journal_mode = OFF` "read-only tuning" hook: rewrites the header of a genome file that is in WAL
+  mode): ROUND4_C18.  C19 (an existing output file is opened r+ and rewritten in place: a killed
+  writer leaves old metadata over partly new data): ROUND4_C19.
+
+**Behaviour-preserving rewrites (the opposite experiment).**  A check that alarms on correct code is as
+useless as one that misses a defect, so after round 3 twenty fresh sub-agents (same isolation: the
+property text and a scratch worktree only) each produced a *harmless* maintenance rewrite of the code
+its property is anchored in -- 80 to 190 changed lines over 2 to 6 functions: loops restructured,
+helpers extracted or inlined, comprehensions unrolled, early returns turned into flags, equivalent
+library calls, private call paths changed -- together with a seeded differential test (`equiv.py`,
+clean vs patched in two sub-processes, 1 000 to 50 000 recorded outcomes including exception types and
+messages) and the unchanged test-suite result.  Each was confirmed (`tools/try_refac.sh`: `equiv.py`
+re-run: SAME) and the property's check was run against the patched copy: **all twenty exit 0 with no
+VIOLATION line** (`harmless/<id>/`, meta.json holds the result line).  Two things were changed because
+of this experiment, before it was run on all twenty: the syntactic ties of five Python helpers became
+advisory (a rewrite of `chunk_slices` or `index_dtype` would otherwise have been a
+`no-failing-input-found` violation, section 0) and a translator failure is only reported against the
+properties whose model it affects.
 
 What the seeding says about the method: every seeded change inside *modelled* logic (search
 bounds, case folding, consensus flags, chunk loops, index normalisation, parameter reconciliation,
